@@ -473,6 +473,86 @@ def run():
         cases.append({"stream": "edit-e-scalar-for-relation", "src": src, "kind": "call", "pi": pi,
                       "coq": "call [%s] %s []" % (cs(fn), args), "site": fn + ":std-call", "name": callx, "what": "std-call"})
 
+    # (G) names inside the body of `group`: the body's frame is the frame WITHOUT the key columns (closed frames); inside it a
+    #     dropped column and the key itself are unknown, a name two inputs still share is ambiguous, everything else resolves.
+    #     (J) qualifiers inside a join condition: this.<input>.<col>, that.<alias>.<col>, <alias>.<col>, the right alias under
+    #     `this`, a left input under `that`, the TABLE name of an aliased source.
+    GROUP_BODIES = {"group-body:aggregate": "group {%s} (aggregate {zz = sum %s})", "group-body:derive": "group {%s} (derive {zz = %s})",
+                    "group-body:sort-take": "group {%s} (sort {%s} | take 1)", "group-body:window": "group {%s} (window rolling:2 (derive {zz = sum %s}))"}
+    for pi, p in enumerate(progs):
+        for k in range(1, len(p.frames)):
+            fr = p.frames[k]
+            if not fr.closed or not g.chance(0.5):
+                continue
+            rs = [r for r in g.refs(fr) if r[2][0] != "infer"]
+            keys = [r for r in rs if r[2][0] == "input"]
+            if not keys:
+                continue
+            ktxt, kid, kexp = g.pick(keys)
+            fb = fr.copy()
+            fb.inputs[kexp[1]].cols = [c_ for c_ in fb.inputs[kexp[1]].cols if c_ != kexp[2]]
+            sk = g.pick(list(GROUP_BODIES))
+            body = GROUP_BODIES[sk]
+            taken = set(fr.all_cols()) | set(fr.input_names()) | set(n0 for n0, _ in p.root)
+            # ill-scoped: a dropped column, the key itself (bare, if no other input still has it), an ambiguous name
+            cand = [d for d in p.dropped if d not in taken]
+            edits = []
+            if cand:
+                edits.append((g.pick(cand), "edit-a-dropped-column", "dropped"))
+            if fb.count(kexp[2]) == 0 and kexp[2] not in fb.input_names() and kexp[2] not in c10_gen.MODULE_LIKE:
+                edits.append((kexp[2], "edit-a-dropped-column", "the-key-itself"))
+            amb = [n for n in dict.fromkeys(fb.all_cols()) if fb.count(n) >= 2]
+            if amb:
+                edits.append((g.pick(amb), "edit-b-ambiguous-name", "ambiguous"))
+            for name, stream, what in edits:
+                cases.append({"stream": stream, "src": p.text(upto=k, extra=[body % (ktxt, name)]), "kind": "edit", "pi": pi,
+                              "coq": "lower_ref head_cfg %s %s" % (coq_scope(p, fb), coq_ident(([], name))),
+                              "site": sk, "name": name, "what": "group-body:" + what, "frame": fb.describe()})
+            good = [r for r in g.refs(fb) if r[2][0] != "infer" and r[2][-1] != "s"]
+            if good:
+                txt, ident, exp = g.pick(good)
+                cases.append({"stream": "well-scoped", "src": p.text(upto=k, extra=[body % (ktxt, txt)]), "kind": "resolves", "pi": pi,
+                              "coq": "lower_ref head_cfg %s %s" % (coq_scope(p, fb), coq_ident(ident)), "site": sk, "ref": txt, "frame": fb.describe()})
+    for pi, p in enumerate(progs):
+        for k in range(1, len(p.frames)):
+            fr = p.frames[k]
+            if not fr.closed or len(fr.inputs) >= 3 or not g.chance(0.5):
+                continue
+            lrefs = [r for r in g.refs(fr) if r[1][0] and r[2][0] == "input"]
+            if not lrefs:
+                continue
+            ltxt, lid, lexp = g.pick(lrefs)                 # <input>.<col>
+            linp, lcol = lid[0][0], lid[1]
+            aliased = g.chance(0.6)
+            ralias = g.fresh("y") if aliased else "w"
+            if not aliased and ("w" in p.used_tables or "w" in fr.input_names()):
+                continue
+            rcols = ["p", "q"]
+            rtxt = "%s = [{p = 1, q = 2}]" % ralias if aliased else "(from w | select {p, q})"
+            right = c10_gen.Frame([c10_gen.Input(ralias, rcols, False)])
+            variants = [
+                ("this.%s.%s" % (linp, lcol), (["this", linp], lcol), True), ("that.%s.q" % ralias, (["that", ralias], "q"), True),
+                ("%s.q" % ralias, ([ralias], "q"), True), ("that.p", (["that"], "p"), True), ("this.%s" % lcol if fr.count(lcol) == 1 else ltxt, (["this"], lcol) if fr.count(lcol) == 1 else lid, True),
+                ("this.%s.q" % ralias, (["this", ralias], "q"), False), ("that.%s.%s" % (linp, lcol), (["that", linp], lcol), False),
+                ("that.%s" % lcol, (["that"], lcol), False), ("this.q", (["this"], "q"), False), ("%s.%s" % (ralias, lcol), ([ralias], lcol), False),
+            ]
+            if aliased:
+                variants.append(("zsrc.q", (["zsrc"], "q"), False))
+            # the table behind an aliased sub-pipeline `x1 = (from t | select ..)` is not a name in scope
+            m_ = re.search(r"\b%s = \(from ([a-z]+) " % re.escape(linp), p.text(upto=k))
+            if m_ and m_.group(1) not in fr.input_names():
+                variants.append(("%s.%s" % (m_.group(1), lcol), ([m_.group(1)], lcol), False))
+            for txt, ident, ok in g.r.sample(variants, 3):
+                if (ident[1] in ("p", "q") and fr.count(ident[1])) or lcol in rcols:
+                    continue
+                src = p.text(upto=k, extra=["join %s%s (%s == 1)" % (g.pick(["", "side:left "]), rtxt, txt)])
+                coq = "lower_ref head_cfg %s %s" % (coq_scope(p, fr, right), coq_ident(ident))
+                if ok:
+                    cases.append({"stream": "well-scoped", "src": src, "kind": "resolves", "pi": pi, "coq": coq, "site": "join-cond-qualifier", "ref": txt, "frame": fr.describe()})
+                else:
+                    cases.append({"stream": "edit-a-dropped-column", "src": src, "kind": "edit", "pi": pi, "coq": coq, "site": "join-cond-qualifier", "name": txt,
+                                  "what": "wrong-side-or-table-name", "frame": fr.describe()})
+
     # (b3) AFTER a join with a fresh, fully known right relation that has a column named like a uniquely named column of the
     #      frame so far -- a column of an input OR one the pipeline defined itself (derive / select / aggregate alias): the
     #      bare name now matches columns of two relations in scope, at every site kind
@@ -733,6 +813,19 @@ def run():
         if c["kind"] == "module":
             judge_module(ck, c, classify_module)
             continue
+        if c["kind"] == "resolves":
+            if not base_ok.get(c["pi"], False):
+                ck.stat(st, "skipped:base-program-rejected")
+                continue
+            ck.count(st, key)
+            mv = c.get("model")
+            mk = outcome_kind(mv) if mv is not None else None
+            ck.stat(st, "%s:model:%s:impl:%s" % (c["site"].split(":")[0], mk, c["impl"]))
+            if mk is not None and mk not in ("OColumn", "OTuple"):
+                ck.violation("model and generator disagree on a well-scoped reference at %s (bug in the check)" % c["site"], dict(rep, model=str(mv), ref=c.get("ref")))
+            elif c["impl"] not in ("ok", "panic"):
+                ck.violation("well-scoped program rejected: reference `%s` at %s should resolve (%s)" % (c.get("ref"), c["site"], c["impl"]), dict(rep, model=str(mv), answer=str(a)[:300]))
+            continue
         if c["kind"] == "type":
             if not base_ok.get(c["pi"], False):
                 ck.stat(st, "skipped:base-program-rejected")
@@ -826,6 +919,8 @@ def run():
                 want = mv[1]
         ck.stat(st, "model:%s" % (mk if c["kind"] == "edit" else (mv[1] if isinstance(mv, tuple) and len(mv) > 1 else mv)))
         ck.stat(st, "impl:" + c["impl"])
+        if c.get("what") and c["kind"] == "edit":
+            ck.stat(st, "family:%s:%s" % (str(c["what"]).split("+")[0], "rejected" if c["impl"].startswith("err") else c["impl"]))
         if c["impl"] == "ok" or c["impl"] == "panic" or c["impl"] == "other":
             what = "ill-scoped program %s: %s" % ("compiled" if c["impl"] == "ok" else "did not produce an error (%s)" % c["impl"], st)
             rep["answer"] = str(a)[:400]
